@@ -201,8 +201,17 @@ func PrintDoc(v any) string {
 	panic("unknown document node " + tla.Str(m["k"]))
 }
 
+// Ctx is the evaluation context of decoded bodies (MC_Dec!EmptyEnv).
+func Ctx() *hcl.EvalContext {
+	return &hcl.EvalContext{Variables: map[string]cty.Value{
+		"n1": cty.NumberIntVal(1), "u": cty.UnknownVal(cty.Number), "d": cty.DynamicVal, "nn": cty.NullVal(cty.String),
+	}}
+}
+
 func jsonExpr(n *e1.Node) string {
 	switch n.K {
+	case "var":
+		return fmt.Sprintf("%q", "${"+n.S+"}")
 	case "num":
 		if n.N%2 == 0 {
 			return fmt.Sprint(n.N / 2)
